@@ -19,24 +19,24 @@ pub trait FieldType: Sized + 'static {
     fn expect(seed: u64) -> u64;
     /// Changes the value in place (no new ledger identity) so that `digest() == expect(seed)`.
     fn mutate(&mut self, seed: u64);
-    /// Ledger identity of the value, if the type is a tracked token.
-    fn tok_id(&self) -> Option<u64> {
-        None
+    /// Ledger identities of the tracked token values this value owns.
+    fn tok_ids(&self) -> Vec<u64> {
+        Vec::new()
     }
 }
 
 /// Object-safe view of a field value handed back by generated code.
 pub trait DynField {
     fn dyn_digest(&self) -> u64;
-    fn dyn_tok_id(&self) -> Option<u64>;
+    fn dyn_tok_ids(&self) -> Vec<u64>;
 }
 
 impl<T: FieldType> DynField for T {
     fn dyn_digest(&self) -> u64 {
         self.digest()
     }
-    fn dyn_tok_id(&self) -> Option<u64> {
-        self.tok_id()
+    fn dyn_tok_ids(&self) -> Vec<u64> {
+        self.tok_ids()
     }
 }
 
